@@ -307,8 +307,17 @@ def or2xor_attribution(ctx, rec, D):
 
 # ------------------------------------------------------------------ one case on the real code
 
-def build(src, element, M, k=None):
-    """fresh qlassf -> (record of everything observed on the real code)"""
+PROFILES = ("default", "fast")  # the two optimizer profiles the library ships
+
+
+def profile_obj(profile):
+    from qlasskit import boolopt
+
+    return {"default": boolopt.defaultOptimizer, "fast": boolopt.fastOptimizer}[profile or "default"]
+
+
+def build(src, element, M, k=None, profile="default"):
+    """fresh qlassf (compiled under the optimizer profile `profile`) -> (record of everything observed on the real code)"""
     from qlasskit import qlassf
     from qlasskit.algorithms import Grover
     from qlasskit.algorithms.qalgorithm import oraclize
@@ -321,7 +330,7 @@ def build(src, element, M, k=None):
         el = getattr(T, element[0])(element[1])
     # the oracle the constructor will use, compiled independently from a fresh qlassf
     with e2e.ChoiceLog() as chlog:
-        qf0 = qlassf(src)
+        qf0 = qlassf(src, bool_optimizer=profile_obj(profile))
         oracle0 = oraclize(qf0, el) if el is not None else qf0
     oc = oracle0.circuit()
     e2e_req = e2e.request(oracle0, chlog)
@@ -332,7 +341,7 @@ def build(src, element, M, k=None):
     # the algorithm, from another fresh qlassf
     _or2xor_log = []
     try:
-        qf = qlassf(src)
+        qf = qlassf(src, bool_optimizer=profile_obj(profile))
         orig = qf.original_f
         if k is None:
             g = Grover(qf, el, n_matching=M)
@@ -383,6 +392,9 @@ def check_case(ctx, res, case, rec, S, tj, pending, dist_by_S, default_k):
             failed = "a non-solution is at least as likely as a solution"
         elif not succ > Fraction(1, 2):
             failed = f"a solution is measured with probability {float(succ):.6f} <= 1/2"
+    if failed is None and (len({D[s] for s in S}) > 1 or len({D[x] for x in range(N) if x not in S}) > 1):
+        # (any iteration count) the circuit cannot tell two solutions, or two non-solutions, apart
+        failed = "output distribution is not constant on the solution set and on its complement"
     key = (n, tuple(S), rec["k"])
     if failed is None:
         if key in dist_by_S and dist_by_S[key][0] != D:
@@ -394,7 +406,8 @@ def check_case(ctx, res, case, rec, S, tj, pending, dist_by_S, default_k):
         attributed = True
         res.known(FINDING_OR2XOR)
     elif failed:
-        clean = oracle_clean(rec["og"], rec["nq"], rec["ret"], n, set(S))
+        dg = rec.get("diag_oracle") or (rec["og"], rec["nq"], rec["ret"])  # (history steps: the oracle inside THIS object)
+        clean = oracle_clean(dg[0], dg[1], dg[2], n, set(S))
         res.violation(case, failed, code=dict(distribution=Df, iterations=rec["k"], oracle_is_clean_xor_oracle=clean),
                       expected="every solution more likely than every non-solution, success > 1/2, same distribution for every form")
     # ---- decoding
@@ -414,6 +427,8 @@ def check_case(ctx, res, case, rec, S, tj, pending, dist_by_S, default_k):
             break
         # the predicate's own Python function on the decoded value
         try:
+            if rec["orig"] is None:  # (history functions whose Python arithmetic is not the modular one)
+                raise TypeError
             r = rec["orig"](value_py(exp, T, tj))
             holds = (r == rec["element"]) if rec["element"] is not None else bool(r)
         except Exception as e:  # noqa
@@ -521,13 +536,16 @@ def table(nmax):
     return [(n, M) for n in range(2, nmax + 1) for M in range(1, 2 ** n // 4 + 1)]
 
 
-def run_one(ctx, res, n, M, S, name, spec, pending, dist_by_S, k=None):
+def run_one(ctx, res, n, M, S, name, spec, pending, dist_by_S, k=None, profile="default"):
     src, element, tj = spec
     case = dict(n=n, M=M, S=list(S), form=name, source=src,
                 element=(list(element) if isinstance(element, tuple) else element), iterations=k)
-    res.count(case, nontrivial=True, bucket=f"n{n}-{name}" + ("" if k is None else "-k"))
+    if profile != "default":  # (default-profile cases keep the case identity they always had)
+        case["profile"] = profile
+    res.count(case, nontrivial=True, bucket=f"n{n}-{name}" + ("" if k is None else "-k") + ("" if profile == "default" else f"-{profile}"))
+    res.histogram[f"profile-{profile}"] = res.histogram.get(f"profile-{profile}", 0) + 1
     try:
-        rec = build(src, element, M, k)
+        rec = build(src, element, M, k, profile)
     except Exception as e:  # noqa
         res.violation(case, f"Grover construction raised {type(e).__name__}: {e}")
         return
@@ -535,6 +553,372 @@ def run_one(ctx, res, n, M, S, name, spec, pending, dist_by_S, k=None):
         res.violation(case, "search_space_size is not the width of the argument", code=rec["n"])
         return
     check_case(ctx, res, case, rec, S, tj, pending, dist_by_S, default_k=(k is None))
+
+
+# ------------------------------------------------------------------ histories on shared objects
+
+def zero_ids(gl):
+    for d in gl:
+        d["id"] = 0
+    return gl
+
+
+def hist_functions(n, rng=None):
+    """functions with several searchable targets: name -> dict(source, tj, python (do Python's own semantics agree
+    with the modular ones?), targets=[(element, S)] sorted by |S|).  The solution sets are computed here, from the
+    table / the arithmetic the source was written from - never from the library."""
+    N = 2 ** n
+    q = ["qint", n]
+    out = {}
+
+    def targets(val, ty, ys):
+        t = []
+        for y in ys:
+            S = [x for x in range(N) if val(x) == y]
+            if 1 <= len(S) < N:
+                t.append(([ty, y], S))
+        return sorted(t, key=lambda e: (len(e[1]), e[0][1]))
+
+    if rng is None:
+        lut = {2: [2, 0, 3, 1], 3: [1, 0, 3, 2, 2, 3, 0, 1], 4: [3, 1, 3, 2, 3, 0, 2, 3, 3, 1, 3, 2, 3, 3, 2, 3]}[n]
+        lut2 = list(reversed(lut))
+        c = {2: 1, 3: 3, 4: 5}[n]
+        cx = {2: 2, 3: 5, 4: 9}[n]
+    else:
+        few = [0, 1, 2] if n > 2 else [0, 1, 2, 3]
+        lut = [rng.choice(few) if rng.random() < 0.45 else 3 for _ in range(N)]
+        for y, at in zip(rng.sample([0, 1, 2], 2), rng.sample(range(N), 2)):  # at least two values present: never constant
+            lut[at] = y
+        lut2 = [rng.randrange(4) for _ in range(N)]
+        lut2[0] = (lut2[1] + 1 + rng.randrange(3)) % 4
+        c = rng.randrange(1, N)
+        cx = rng.randrange(1, N)
+    for nm, l in (("lut", lut), ("lut2", lut2)):
+        out[nm] = dict(source=f"def fun(a: Qint[{n}]) -> Qint[2]:\n    l = {l}\n    return l[a]", tj=q, python=True,
+                       targets=targets(lambda x, l=l: l[x], "Qint2", range(4)))
+    out["add"] = dict(source=f"def fun(a: Qint[{n}]) -> Qint[{n}]:\n    return a + {c}", tj=q, python=False,
+                      targets=targets(lambda x: (x + c) % N, f"Qint{n}", range(N)))
+    out["xor"] = dict(source=f"def fun(a: Qint[{n}]) -> Qint[{n}]:\n    return a ^ {cx}", tj=q, python=True,
+                      targets=targets(lambda x: x ^ cx, f"Qint{n}", range(N)))
+    # the wrapped function is called like the oracle `oraclize` builds
+    out["named-oracle"] = dict(source=f"def oracle(a: Qint[{n}]) -> Qint[2]:\n    l = {lut}\n    return l[a]", tj=q, python=True,
+                               targets=targets(lambda x: lut[x], "Qint2", range(4)))
+    if n == 4:
+        l4 = [0, 1, 2, 0]
+        out["pair"] = dict(source="def fun(ii: Tuple[Qint[2], Qint[2]]) -> Qint[2]:\n    l = [0, 1, 2, 0]\n    return l[ii[0]] + l[ii[1]]",
+                           tj=["tuple", ["qint", 2], ["qint", 2]], python=True,
+                           # (2, 2) sums to 4: not a solution of y = 1, 2, 3 whether the sum wraps or not; y = 0 is left out
+                           targets=targets(lambda x: l4[x & 3] + l4[x >> 2], "Qint2", (1, 2, 3)))
+    return out
+
+
+def _fix_k(n, st, rng=None):
+    """a step whose solution set is outside the property's range 4M <= N gets an explicit iteration count (the exact
+    distribution is then judged against the recurrence, which holds for every M and k >= 1)"""
+    if st["op"] == "grover" and st.get("k") is None and 4 * len(st["S"]) > 2 ** n:
+        st["k"] = 1 if rng is None else rng.choice((1, 2))
+    return st
+
+
+def systematic_histories(n):
+    """the seed-independent slice: see docs/notes/C15.md (Histories)"""
+    F = hist_functions(n)
+    N = 2 ** n
+    S1 = [N - 2]
+    pf = forms(n, S1)
+    hs = []
+
+    def H(kind, objects, steps, profile="default"):
+        objs = {}
+        for name, fam in objects.items():
+            if fam in F:
+                objs[name] = dict(source=F[fam]["source"], tj=F[fam]["tj"], python=F[fam]["python"], profile=profile)
+            else:  # a predicate form of the set S1
+                objs[name] = dict(source=pf[fam][0], tj=pf[fam][2], python=True, profile=profile)
+        hs.append(dict(kind=kind, n=n, objects=objs, steps=[_fix_k(n, dict(st)) for st in steps]))
+
+    def G(obj, fam, ti, k=None):
+        t = F[fam]["targets"]
+        el, S = t[ti % len(t)]
+        return dict(op="grover", obj=obj, element=el, S=S, k=k)
+
+    def O(obj, fam, ti, oname="oracle", save=None):
+        t = F[fam]["targets"]
+        el, S = t[ti % len(t)]
+        return dict(op="oraclize", obj=obj, element=el, S=S, oname=oname, save=save)
+
+    def P(obj, element=None, k=None):  # the predicate of S1; element False searches the complement
+        S = S1 if element in (None, True) else [x for x in range(N) if x not in S1]
+        return dict(op="grover", obj=obj, element=element, S=S, k=k)
+
+    fams = ["lut", "add", "xor"] + (["pair"] if n == 4 else [])
+    for fam in fams:
+        o = {"g": fam}
+        H(f"targets2-{fam}", o, [G("g", fam, 0), G("g", fam, 1)])
+        H(f"targets3-{fam}", o, [G("g", fam, 0), G("g", fam, 1), G("g", fam, 2)])
+        H(f"same-twice-{fam}", o, [G("g", fam, 1), G("g", fam, 1)])
+        H(f"aba-{fam}", o, [G("g", fam, 1), G("g", fam, 0), G("g", fam, 1)])
+    H("targets3-lut-fast", {"g": "lut"}, [G("g", "lut", 0), G("g", "lut", 1), G("g", "lut", 2)], profile="fast")
+    H("targets2-add-fast", {"g": "add"}, [G("g", "add", 2), G("g", "add", 0)], profile="fast")
+    H("targets2-named-oracle", {"g": "named-oracle"}, [G("g", "named-oracle", 0), G("g", "named-oracle", 1), G("g", "named-oracle", 0)])
+    H("explicit-k-lut", {"g": "lut"}, [G("g", "lut", 0, k=1), G("g", "lut", 1, k=2), G("g", "lut", 0, k=2), G("g", "lut", 1)])
+    # an oracle built by `oraclize` directly, then through Grover (and the other way round); the returned oracle object
+    # itself as the predicate of a Grover
+    H("oraclize-then-grover", {"g": "lut"}, [O("g", "lut", 0, save="o0"), G("g", "lut", 1), G("g", "lut", 0), O("g", "lut", 1),
+                                             G("o0", "lut", 0), O("g", "lut", 0)])
+    H("grover-then-oraclize", {"g": "add"}, [G("g", "add", 0), O("g", "add", 1, save="o1"), O("g", "add", 0), G("o1", "add", 1),
+                                             G("g", "add", 1)])
+    H("oraclize-names", {"g": "lut"}, [O("g", "lut", 0, oname="orc"), O("g", "lut", 1, oname="orc"), O("g", "lut", 1), G("g", "lut", 0),
+                                       O("g", "lut", 0, oname="fun")])
+    # two function objects (same name, same argument type, same target literals), searched in two orders
+    two = {"g": "lut", "h": "lut2"}
+    H("two-functions-order-A", two, [G("g", "lut", 0), G("h", "lut2", 0), G("g", "lut", 1), G("h", "lut2", 1)])
+    H("two-functions-order-B", {"h": "lut2", "g": "lut"}, [G("h", "lut2", 1), G("g", "lut", 1), G("h", "lut2", 0), G("g", "lut", 0)])
+    H("two-functions-same-target", {"g": "lut", "h": "named-oracle", "e": "lut2"},
+      [G("g", "lut", 0), G("h", "named-oracle", 0), G("e", "lut2", 0), G("g", "lut", 0)])
+    # the same predicate object for several Grover objects
+    H("predicate-twice", {"p": "eqchain"}, [P("p"), P("p"), P("p", k=2), P("p", True), P("p", False, k=1), P("p")])
+    H("predicate-twice-fast", {"p": "minterm"}, [P("p"), P("p", True), P("p")], profile="fast")
+    H("two-predicates", {"p": "eqchain", "r": "neqchain"}, [P("p"), P("r"), P("r", True), P("p", False, k=2), P("r")])
+    # interleaved with the other algorithm objects on the same function, where the types allow
+    H("interleaved-predicate", {"p": "minterm"}, [dict(op="dj", obj="p"), P("p"), dict(op="bv", obj="p"), P("p", True),
+                                                    dict(op="simon", obj="p"), P("p", False, k=1), P("p")])
+    H("interleaved-function", {"g": "xor"}, [G("g", "xor", 0), dict(op="simon", obj="g"), G("g", "xor", 1), O("g", "xor", 2),
+                                              dict(op="simon", obj="g"), G("g", "xor", 0)])
+    return hs
+
+
+def random_history(n, rng, idx):
+    F = hist_functions(n, rng)
+    fam = rng.choice(["lut", "lut", "add", "xor"] + (["pair"] if n == 4 else []))
+    fam2 = rng.choice(["lut2", "named-oracle"])
+    profile = "fast" if rng.random() < 0.3 else "default"
+    objs = {nm: dict(source=F[f]["source"], tj=F[f]["tj"], python=F[f]["python"], profile=profile) for nm, f in (("g", fam), ("h", fam2))}
+    fam_of = {"g": fam, "h": fam2}
+    steps, saved = [], []
+    for _ in range(rng.randint(3, 5)):
+        r = rng.random()
+        obj = "g" if rng.random() < 0.75 else "h"
+        t = F[fam_of[obj]]["targets"]
+        el, S = rng.choice(t)
+        if r < 0.65:
+            steps.append(dict(op="grover", obj=obj, element=el, S=S, k=rng.choice((None, None, 1, 2))))
+        elif r < 0.8:
+            sv = f"o{len(saved)}"
+            saved.append((sv, el, S))
+            steps.append(dict(op="oraclize", obj=obj, element=el, S=S, oname=rng.choice(("oracle", "oracle", "orc")), save=sv))
+        elif r < 0.9 and saved:
+            sv, el, S = rng.choice(saved)
+            steps.append(dict(op="grover", obj=sv, element=el, S=S, k=None))
+        else:
+            steps.append(dict(op="simon", obj=obj))
+    if not any(s["op"] == "grover" for s in steps):
+        el, S = rng.choice(F[fam]["targets"])
+        steps.append(dict(op="grover", obj="g", element=el, S=S, k=None))
+    return dict(kind=f"random-{idx}", n=n, objects=objs, steps=[_fix_k(n, s, rng) for s in steps])
+
+
+def reference(refs, src, elj, M, k, profile):
+    """what fresh objects give for (source, target, parameters): `build` compiles the oracle from one fresh qlassf and the
+    Grover from another; kept per distinct request"""
+    key = json.dumps([src, elj, M, k, profile])
+    okey = json.dumps([src, elj, profile])
+    if k == "oracle-only":  # (an oraclize step needs the fresh oracle only: any fresh build of this source / target will do)
+        if okey in refs:
+            return refs[okey]
+        k = 1
+        key = json.dumps([src, elj, M, k, profile])
+    if key not in refs:
+        refs[key] = build(src, tuple(elj) if isinstance(elj, list) else elj, M, k, profile)
+        refs.setdefault(okey, refs[key])
+    return refs[key]
+
+
+def first_diff(a, b):
+    return next((j for j, (x, y) in enumerate(zip(a, b)) if x != y), min(len(a), len(b)))
+
+
+def run_history(ctx, res, hist, pending, dist_by_S, refs, fresh_jobs=None):
+    """one history: the objects are built once, the steps run in order on them, in this process.  Every Grover step is
+    a case of its own (the whole history is part of the case, the replay re-runs it from the start)."""
+    from qlasskit import qlassf
+    from qlasskit.algorithms import BernsteinVazirani, DeutschJozsa, Grover, Simon
+    from qlasskit.algorithms.qalgorithm import oraclize
+    import qlasskit.types as T
+
+    n = hist["n"]
+    N = 2 ** n
+    objs, meta, snap = {}, {}, {}
+    for name, o in hist["objects"].items():
+        objs[name] = qlassf(o["source"], bool_optimizer=profile_obj(o.get("profile")))
+        meta[name] = dict(o, element=None)
+        snap[name] = zero_ids(circ.qc_to_json(objs[name].circuit()))
+    kind = hist["kind"].split("-fast")[0]
+    bucket = "hist-" + ("random" if kind.startswith("random") else kind)
+    for i, st in enumerate(hist["steps"]):
+        if st["obj"] not in meta:  # a saved oracle whose oraclize step failed (reported there)
+            continue
+        m = meta[st["obj"]]
+        src, profile, tj = m["source"], m.get("profile", "default"), m["tj"]
+        case = dict(n=n, form="history", history=hist, step=i, source=src, profile=profile)
+        if st["op"] in ("dj", "bv", "simon"):
+            cls = dict(dj=DeutschJozsa, bv=BernsteinVazirani, simon=Simon)[st["op"]]
+            res.count(case, nontrivial=True, bucket=f"hist-step-{st['op']}")
+            try:
+                fresh = zero_ids(circ.qc_to_json(cls(qlassf(src, bool_optimizer=profile_obj(profile))).circuit()))
+            except Exception:  # noqa  (types do not allow this algorithm on this function)
+                continue
+            try:
+                got = zero_ids(circ.qc_to_json(cls(objs[st["obj"]]).circuit()))
+            except Exception as e:  # noqa
+                res.violation(case, f"step {i}: {cls.__name__} on the shared function raised {type(e).__name__}: {e} (fresh objects do not)")
+                continue
+            if got != fresh:
+                j = first_diff(got, fresh)
+                res.violation(case, f"step {i}: the {cls.__name__} circuit built on the shared function is not the one a fresh function gives",
+                              code=dict(length=len(got), gate=got[j:j + 1]), expected=dict(length=len(fresh), gate=fresh[j:j + 1]))
+            continue
+        # the target of this step: the step's own one, or (a saved oracle used as a predicate) the one it was built for
+        elj = st["element"] if m["element"] is None else m["element"]
+        pred_el = None if m["element"] is not None else elj   # what is handed to Grover / oraclize at this step
+        S = sorted(st["S"])
+        M = len(S)
+        k = st.get("k")
+        case.update(M=M, S=S, element=elj, iterations=k, op=st["op"])
+        el = getattr(T, pred_el[0])(pred_el[1]) if isinstance(pred_el, list) else pred_el
+        res.count(case, nontrivial=True, bucket=bucket + ("-oraclize" if st["op"] == "oraclize" else ""))
+        res.histogram[f"profile-{profile}"] = res.histogram.get(f"profile-{profile}", 0) + 1
+        try:
+            ref = reference(refs, src, elj, M, k if st["op"] == "grover" else "oracle-only", profile)
+        except Exception as e:  # noqa
+            res.violation(case, f"step {i}: construction on fresh objects raised {type(e).__name__}: {e}")
+            continue
+        if st["op"] == "oraclize":
+            try:
+                o = oraclize(objs[st["obj"]], el, name=st.get("oname", "oracle"))
+                oc = o.circuit()
+                og = zero_ids(circ.qc_to_json(oc))
+                nq, ret = oc.num_qubits, oc["_ret"]
+            except Exception as e:  # noqa
+                res.violation(case, f"step {i}: oraclize raised {type(e).__name__}: {e}")
+                continue
+            if st.get("save"):
+                objs[st["save"]] = o
+                meta[st["save"]] = dict(m, element=elj)
+                snap[st["save"]] = og
+            if not oracle_clean(og, nq, ret, n, set(S)):
+                flips = None
+                try:
+                    flips = [x for x in range(N) if circ.run_classical(
+                        og, [bool((x >> b) & 1) for b in range(n)] + [False] * (nq - n))[ret]]
+                except Exception:  # noqa
+                    pass
+                res.violation(case, f"step {i}: the oracle returned by oraclize is not a clean xor-oracle of the solution set of this target",
+                              code=dict(inputs_on_which_ret_is_set=flips, num_qubits=nq), expected=dict(solution_set=S))
+            elif st.get("oname", "oracle") == "oracle" and (og, nq, ret) != (ref["og"], ref["nq"], ref["ret"]):
+                j = first_diff(og, ref["og"])
+                res.violation(case, f"step {i}: the oracle returned by oraclize is not the one fresh objects give",
+                              code=dict(length=len(og), gate=og[j:j + 1], num_qubits=nq, ret=ret),
+                              expected=dict(length=len(ref["og"]), gate=ref["og"][j:j + 1], num_qubits=ref["nq"], ret=ref["ret"]))
+            continue
+        try:
+            if k is None:
+                g = Grover(objs[st["obj"]], el, n_matching=M)
+            else:
+                g = Grover(objs[st["obj"]], el, n_iterations=k, n_matching=M)
+            qc = g.circuit()
+            gl = zero_ids(circ.qc_to_json(qc))
+        except Exception as e:  # noqa
+            res.violation(case, f"step {i}: Grover construction raised {type(e).__name__}: {e} (fresh objects do not)")
+            continue
+        try:
+            doc = g.oracle.circuit()
+            diag = (zero_ids(circ.qc_to_json(doc)), doc.num_qubits, doc["_ret"])
+        except Exception:  # noqa
+            diag = None
+        rec = dict(ref, diag_oracle=diag, g=g, gates=gl, num_qubits=qc.num_qubits, output_qubits=list(g.output_qubits), k=g.n_iterations,
+                   n=g.search_space_size, or2xor_log=None, orig=(ref["orig"] if m.get("python", True) else None))
+        if rec["n"] != n:
+            res.violation(case, "search_space_size is not the width of the argument", code=rec["n"])
+            continue
+        nv = len(res.violations)
+        # (1) the per-instance oracle: exact distribution against the solution set of THIS step's predicate / target
+        check_case(ctx, res, case, rec, S, tj, pending, dist_by_S, default_k=(k is None))
+        # (2) == what fresh objects give
+        if gl != ref["gates"] or rec["num_qubits"] != ref["num_qubits"] or rec["k"] != ref["k"]:
+            j = first_diff(gl, ref["gates"])
+            res.violation(case, f"step {i}: the Grover circuit built at this point of the history is not the one fresh objects give "
+                          "for the same source, target and parameters" + (" (its distribution was judged above)" if len(res.violations) > nv else ""),
+                          code=dict(length=len(gl), index=j, gate=gl[j:j + 1], num_qubits=rec["num_qubits"], iterations=rec["k"]),
+                          expected=dict(length=len(ref["gates"]), gate=ref["gates"][j:j + 1], num_qubits=ref["num_qubits"], iterations=ref["k"]))
+        if fresh_jobs is not None:
+            fresh_jobs.append((case, dict(source=src, element=elj, M=M, k=k, profile=profile), gl))
+        if len(pending) >= 16:
+            flush(ctx, res, pending)
+    # the caller's objects are the ones they were
+    for name, o in objs.items():
+        try:
+            now = zero_ids(circ.qc_to_json(o.circuit()))
+        except Exception as e:  # noqa
+            now = f"{type(e).__name__}: {e}"
+        if now != snap[name]:
+            case = dict(n=n, form="history", history=hist, step=len(hist["steps"]), source=meta[name]["source"])
+            res.violation(case, f"after the history the circuit of the caller's function object '{name}' is not the one it had before",
+                          code=dict(length=len(now)), expected=dict(length=len(snap[name])))
+
+
+def fresh_process_check(ctx, res, jobs, limit):
+    """`limit` Grover steps rebuilt each in a process of its own (nothing was built there before): same gate list"""
+    import os
+    import subprocess
+    import sys
+
+    from .common import REPO, VERIF
+
+    env = dict(os.environ, QV_REPO=REPO)
+    procs = []
+    for case, job, gl in jobs[:limit]:
+        p = subprocess.Popen([sys.executable, "-m", "harness.c15", "--fresh"], cwd=VERIF, stdin=subprocess.PIPE,
+                             stdout=subprocess.PIPE, stderr=subprocess.DEVNULL, text=True, env=env)
+        p.stdin.write(json.dumps(job))
+        p.stdin.close()
+        procs.append((case, gl, p))
+    n_ok = 0
+    for case, gl, p in procs:
+        try:
+            out = p.stdout.read()
+            p.wait(timeout=120)
+            fresh = json.loads(out)["gates"]
+        except Exception as e:  # noqa
+            res.notes.append(f"fresh-process reference not available for one history step ({type(e).__name__})")
+            continue
+        n_ok += 1
+        res.histogram["hist-fresh-process-compared"] = res.histogram.get("hist-fresh-process-compared", 0) + 1
+        if fresh != gl:
+            j = first_diff(gl, fresh)
+            res.violation(case, f"step {case['step']}: the Grover circuit built at this point of the history is not the one a fresh process builds",
+                          code=dict(length=len(gl), index=j, gate=gl[j:j + 1]), expected=dict(length=len(fresh), gate=fresh[j:j + 1]))
+    return n_ok
+
+
+def _fresh_main():
+    import sys
+
+    from .common import use_repo
+
+    use_repo()
+    job = json.loads(sys.stdin.read())
+    from qlasskit import qlassf
+    from qlasskit.algorithms import Grover
+    import qlasskit.types as T
+
+    el = job["element"]
+    if isinstance(el, list):
+        el = getattr(T, el[0])(el[1])
+    qf = qlassf(job["source"], bool_optimizer=profile_obj(job.get("profile")))
+    kw = {} if job.get("k") is None else dict(n_iterations=job["k"])
+    g = Grover(qf, el, n_matching=job["M"], **kw)
+    print(json.dumps(dict(gates=zero_ids(circ.qc_to_json(g.circuit())))))
 
 
 def run(ctx: Ctx) -> Result:
@@ -545,7 +929,10 @@ def run(ctx: Ctx) -> Result:
         "every (n, M) of the table 2<=n<=nmax, 1<=M<=2^n/4 (nmax=4 quick, 6 thorough) x solution sets "
         "(first M, last M, a run from 3, a spread pattern, random ones) x syntactic forms (equality chain, "
         "negated inequalities, bit minterms, membership loop, interval, Tuple[Qint,Qint], Tuple[bool,Qint], "
-        "Qlist[bool,n], oraclize of a lookup function, oraclize of xor, element True); case = "
+        "Qlist[bool,n], oraclize of a lookup function, oraclize of xor, element True), each form once per width also under "
+        "fastOptimizer (random cases draw the profile); plus HISTORIES: sequences of Grover / oraclize / DeutschJozsa / Simon / "
+        "BernsteinVazirani constructions on shared QlassF objects in one process (systematic slice on 2..4 search bits + random "
+        "ones), every Grover step a case judged against the solution set of its own target; case = "
         "(n, S, form, source[, explicit iteration count]); each is a full Grover circuit evaluated exactly, all non-trivial; "
         "forms whose oracle needs more than the evaluator's support budget are counted as skipped"
     )
@@ -565,6 +952,7 @@ def run(ctx: Ctx) -> Result:
             names = [f for f in names if f not in ("oraclize-lut", "oraclize-zero")]  # slow to compile for wide lookup tables
         return fl, names
 
+    fast_done = set()
     # ---- pass 1, systematic (the same for every seed): the whole table, two fixed solution sets per
     #      entry (four in the thorough tier), every form; explicit iteration counts on the first set
     for n, M in table(nmax):
@@ -576,6 +964,11 @@ def run(ctx: Ctx) -> Result:
             fl, names = forms_for(n, M, S, si)
             for name in names:
                 run_one(ctx, res, n, M, S, name, fl[name], pending, dist_by_S)
+                # configuration: every form once per width under the other shipped optimizer profile (same S, so
+                # its distribution is also compared with the default-profile forms of this set)
+                if (n, name) not in fast_done:
+                    fast_done.add((n, name))
+                    run_one(ctx, res, n, M, S, name, fl[name], pending, dist_by_S, profile="fast")
                 if len(pending) >= 16:
                     flush(ctx, res, pending)
         fl = forms(n, sets[0])
@@ -591,6 +984,20 @@ def run(ctx: Ctx) -> Result:
             run_one(ctx, res, 5, 1, [21], name, fl5[name], pending, dist_by_S)
     flush(ctx, res, pending)
     ctx.log(f"[C15] systematic pass done: {res.evaluations} cases, {time.time() - t_run:.1f}s")
+    # ---- pass 1b, systematic histories (the same for every seed): several algorithm objects built one after the other
+    #      in this process on SHARED function objects, 2..4 search bits
+    refs, fresh_jobs = {}, []
+    n_hist = 0
+    for n in (2, 3, 4):
+        for hist in systematic_histories(n):
+            run_history(ctx, res, hist, pending, dist_by_S, refs,
+                        fresh_jobs if hist["kind"] in ("targets3-lut", "targets2-pair", "aba-add", "predicate-twice") else None)
+            n_hist += 1
+    flush(ctx, res, pending)
+    # the later steps of a few histories against processes in which nothing else was ever built
+    later = [j for j in fresh_jobs if j[0]["step"] >= 1]
+    n_fresh = fresh_process_check(ctx, res, later, 12 if not ctx.thorough else 40)
+    ctx.log(f"[C15] systematic histories done: {n_hist} histories, {res.evaluations} cases so far, {time.time() - t_run:.1f}s")
     # ---- pass 2, random solution sets (from ctx.rng), every form; a wall-clock safety net only
     n_random = {2: 1, 3: 2, 4: 2, 5: 0, 6: 0}
     if ctx.thorough:
@@ -605,10 +1012,26 @@ def run(ctx: Ctx) -> Result:
                 if time.time() - t_run > safety:
                     incomplete = True
                     break
-                run_one(ctx, res, n, M, S, name, fl[name], pending, dist_by_S)
+                prof = "fast" if rng.random() < 0.3 else "default"  # the profile is drawn per case
+                run_one(ctx, res, n, M, S, name, fl[name], pending, dist_by_S, profile=prof)
                 if len(pending) >= 16:
                     flush(ctx, res, pending)
+    n_rand_hist = 16 if ctx.thorough else 6
+    for hi in range(n_rand_hist):
+        if time.time() - t_run > safety:
+            incomplete = True
+            break
+        run_history(ctx, res, random_history(rng.choice((2, 3, 3, 4)), rng, hi), pending, dist_by_S, refs)
     flush(ctx, res, pending)
+    res.notes.append(
+        f"histories on shared objects: {n_hist} systematic histories (widths 2-4; per function family lut / add / xor / pair: two and "
+        "three different targets on one QlassF object, the same target twice, a-b-a; explicit iteration counts; a function called "
+        "'oracle'; oraclize directly then Grover and the other way round, the returned oracle object as a predicate, oraclize under "
+        "other names; two function objects of the same name in two orders and with the same target literal; one predicate object for "
+        "several Grover objects incl. element True / False; interleaved with DeutschJozsa / BernsteinVazirani / Simon objects on the "
+        f"same function; three of them under fastOptimizer) + {n_rand_hist} random ones; every Grover step judged against the solution "
+        "set of its own target and compared with the circuit fresh objects give; "
+        f"{n_fresh} later steps also compared with a fresh process each")
     res.exhaustive = True  # the (n, M) table of the tier was enumerated completely in pass 1
     if incomplete:
         res.notes.append("wall-clock safety net reached during the random pass (machine under load); the systematic pass was complete")
@@ -656,6 +1079,14 @@ def replay(ctx: Ctx, payload):
         return 2
     r = Result("C15")
     pend, dist = [], {}
+    if "history" in case:  # the whole history, from the start, on new shared objects
+        run_history(ctx, r, case["history"], pend, dist, {})
+        flush(ctx, r, pend)
+        for v in r.violations[:3]:
+            print("VIOLATION", json.dumps(v, default=str)[:2500])
+        for v in r.disagreements[:3]:
+            print("DISAGREE", json.dumps(v, default=str)[:2500])
+        return 1 if (r.violations or r.disagreements) else 0
     fl = forms(case["n"], case["S"])
     spec = fl.get(case["form"])
     if spec is None or spec[0] != case["source"]:
@@ -672,3 +1103,10 @@ def replay(ctx: Ctx, payload):
     for v in r.disagreements[:3]:
         print("DISAGREE", json.dumps(v, default=str)[:1500])
     return 1 if (r.violations or r.disagreements) else 0
+
+
+if __name__ == "__main__":
+    import sys as _sys
+
+    if "--fresh" in _sys.argv:
+        _fresh_main()
